@@ -148,6 +148,8 @@ def digitSumAux : Nat → Nat → Nat
 
 def digitSum (n : Nat) : Nat := digitSumAux n n
 
+@[simp] theorem digitSum_zero : digitSum 0 = 0 := rfl
+
 /-- `sum(int(n) for n in "".join(str((2 - i % 2) * int(n)) for i, n in enumerate(reversed(num))))`. -/
 def luhnSum : List Nat → Nat → Nat
   | [], _ => 0
